@@ -470,12 +470,12 @@ func ZZVerifC12() {
 	}
 	var bounds mcrt.Bounds
 	bounds[mcrt.Crash] = 1
-	bounds[mcrt.Order] = 1 // the crash may follow one map iteration (manifests, layers to prune) in a non-default order
+	bounds[mcrt.Order] = 1   // the crash may follow one map iteration (manifests, layers to prune) in a non-default order
+	bounds[mcrt.Preempt] = 1 // or one non-default schedule of the download goroutines
 	total := 2
 	budget := 100 * gotime.Second
 	if thorough {
-		bounds[mcrt.Preempt] = 1 // crash under one non-default schedule of the download goroutines
-		bounds[mcrt.Crash] = 2   // a second crash during the start-up repair or the repeated operation
+		bounds[mcrt.Crash] = 2 // a second crash during the start-up repair or the repeated operation
 		total = 3
 		budget = 18 * gotime.Minute
 	}
